@@ -67,6 +67,7 @@ def sstrCase (j : Json) : Except String Json := do
   pure (Json.mkObj [
     ("parts", sstrToJson s), ("plain", strToJson plain), ("reparse", sstrToJson (parse plain)),
     ("plainExact", Json.bool (parse plain == s)),
+    ("replaceId", sstrToJson (replaceIdentity s)),
     ("convs", .arr rs.toArray)])
 
 /-- `sstr.regex`: `src`, `custom`, `impl` regex text, `subjects`: glob truth per subject, the
